@@ -57,6 +57,8 @@ fn dispatch(mode: &str, line: &str) -> String {
         "tsc" => pure::tsc(line),
         "tscd" => pure::tscd(line),
         "tscs" => pure::tscs(line),
+        "osd" => pure::osd(line),
+        "oss" => pure::oss(line),
         "dur" => pure::dur(line),
         "prec" => pure::prec(line),
         "precq" => pure::precq(line),
